@@ -44,6 +44,11 @@ def _gen0(rng, tier):
     for _ in range(G.budget(40) if tier == 'quick' else 1500):     # narrow integer types with runs longer than 127 / 255 frames
         trajs, dtypes, tag = G.narrow_set(rng, 'long-int8')
         yield {'trajs': trajs, 'lag': rng.choice([2, 2, 3, 5, 9]), 'iter': rng.random() < 0.5, 'form': 'loa', 'alpha': tag, 'dtypes': dtypes}
+    for _ in range(G.budget(12) if tier == 'quick' else 300):      # one object: direct coring with a smaller window first, then iterative
+        labs, akind = G.alphabet(rng, k=rng.randint(2, 3))
+        trajs = [G.traj(rng, labs, rng.randint(12, 40), sticky=0.7) for _ in range(rng.choice([1, 2]))]
+        t0 = rng.choice([2, 3, 4])
+        yield {'trajs': trajs, 'lag': t0 + rng.choice([1, 2]), 'iter': True, 'form': 'obj', 'alpha': akind, 'pre': [[t0, False]]}
     for _ in range(G.budget(4) if tier == 'quick' else 100):       # arrays of different widths / signedness with > 128 states
         trajs, dtypes, tag = G.narrow_set(rng, rng.choice(['many-mixed', 'many-unsigned']))
         yield {'trajs': trajs, 'lag': rng.choice([1, 2]), 'iter': rng.random() < 0.5, 'form': 'loa', 'alpha': tag, 'dtypes': dtypes}
